@@ -235,12 +235,9 @@ def run_check_case(case):
     if not res.out.strip():
         return ("check:silent", f"nothing printed although quiet={case['quiet']} and {nfind} function(s) > 30")
     parsed = cli.parse_check_output(res.out)
-    if parsed["other"]:
-        return ("check:unparseable", f"unexpected output lines {parsed['other']!r}\n{res.out}")
-    if parsed["need_refactoring"] != nfind:
-        return ("check:summary-count", f"summary says {parsed['need_refactoring']} functions need refactoring, {nfind} are > 30\n{res.out}")
-    if parsed["files_checked"] != len(files):
-        return ("check:files-checked", f"summary says {parsed['files_checked']} files checked, {len(files)} given")
+    bad = cli.summary_matches(parsed, len(files), nfind)
+    if bad:
+        return ("check:summary-count" if "refactoring" in bad else "check:files-checked", f"{bad} (lengths {sorted(alll)})\n{res.out}")
     by_file = {}
     for path, line, colm, ln, sym, name in parsed["findings"]:
         by_file.setdefault(path, []).append((ln, sym, name))
